@@ -343,7 +343,7 @@ def insert_trees(
     possible_insertion_points: Dict[DerivationTree, List[Path]] = {
         tree: [
             path
-            for path, subtree in into_tree.leaves()
+            for path, subtree in into_tree.open_leaves()
             if any(
                 subtree.value == insert_tree_subtree.value
                 or (
